@@ -365,3 +365,81 @@ func errValueMatcher(call *ssa.Call) func(v ssa.Value) bool {
 		return false
 	}
 }
+
+// NatLoop is a natural loop found through a back edge.
+type NatLoop struct {
+	Header *ssa.BasicBlock
+	Blocks map[*ssa.BasicBlock]bool
+}
+
+// NaturalLoops finds the natural loops of f (one per header).
+func NaturalLoops(f *ssa.Function) []NatLoop {
+	byHeader := map[*ssa.BasicBlock]map[*ssa.BasicBlock]bool{}
+	for _, b := range f.Blocks {
+		for _, s := range b.Succs {
+			if s == b || s.Dominates(b) {
+				// back edge b -> s
+				body := byHeader[s]
+				if body == nil {
+					body = map[*ssa.BasicBlock]bool{s: true}
+					byHeader[s] = body
+				}
+				// walk predecessors from b until the header
+				work := []*ssa.BasicBlock{b}
+				for len(work) > 0 {
+					x := work[len(work)-1]
+					work = work[:len(work)-1]
+					if body[x] {
+						continue
+					}
+					body[x] = true
+					work = append(work, x.Preds...)
+				}
+			}
+		}
+	}
+	var out []NatLoop
+	for _, b := range f.Blocks {
+		if body, ok := byHeader[b]; ok {
+			out = append(out, NatLoop{Header: b, Blocks: body})
+		}
+	}
+	return out
+}
+
+// InnermostLoopOf returns the smallest natural loop containing the instruction.
+func InnermostLoopOf(in ssa.Instruction) *NatLoop {
+	var best *NatLoop
+	loops := NaturalLoops(in.Parent())
+	for i := range loops {
+		l := &loops[i]
+		if l.Blocks[in.Block()] && (best == nil || len(l.Blocks) < len(best.Blocks)) {
+			best = l
+		}
+	}
+	return best
+}
+
+// EveryIterationPasses: every path from the loop header back to the header
+// (one full iteration) passes an instruction for which pred holds.
+func (l *NatLoop) EveryIterationPasses(pred func(in ssa.Instruction) bool) bool {
+	// start after the header's last instruction into successors inside the loop
+	var starts []Pt
+	hdrOK := false
+	for _, in := range l.Header.Instrs {
+		if pred(in) {
+			hdrOK = true
+		}
+	}
+	if hdrOK {
+		return true
+	}
+	for _, s := range l.Header.Succs {
+		if l.Blocks[s] {
+			starts = append(starts, Pt{s, 0})
+		}
+	}
+	first := l.Header.Instrs[0]
+	vis := Reach(starts, func(in ssa.Instruction) bool { return pred(in) || in == first }, nil)
+	return !vis[first] || pred(first)
+}
